@@ -220,19 +220,89 @@ def c_keep(i, seed):
     return True
 
 
-def seq_group(pid, ob_id, what, call, point_specs, oracle, marker, tier, temporaries=False):
+def argforms_generic(pid, ob_id, what, call, specs, tier, mods, around=None, classes=('HPAngle', 'GONAngle', 'DMSAngle', 'DDMAngle', 'DECAngle'),
+                     timeout_s=15, domain_errors=()):
+    """angle arguments of `what` given as objects of every angle class (all positions; thorough: every single position too) give the result
+    of their decimal-degree values (obtained through each object's own dec()): both calls run in the same path, outputs must be identical
+    terms (hp2dec/dec2hp summarised: C08). specs: (name, lo, hi) per angle position; call(mod, angle_args) -> tuple"""
+    import contextlib
+    from checks.c15 import patched_angles, same
+    import geodepy.angles as ga
+    gc, mod = mods()
+    out = []
+    allpos = tuple(range(len(specs)))
+    subsets = [allpos] + ([(k,) for k in allpos] if tier != 'quick' and len(allpos) > 1 else [])
+
+    def obj(cls, pre, lo, hi):
+        if cls == 'DECAngle':
+            return ga.DECAngle(fresh_real(pre + 'v', lo, hi))
+        if cls == 'HPAngle':
+            return ga.HPAngle(fresh_real(pre + 'hp', lo, hi))
+        if cls == 'GONAngle':
+            return ga.GONAngle(fresh_real(pre + 'g', lo * 10 / 9, hi * 10 / 9))
+        d = fresh_real(pre + 'd', int(lo), int(hi) - 1, is_int=True)
+        if cls == 'DMSAngle':
+            m, sec = fresh_real(pre + 'm', 0, 59, is_int=True), fresh_real(pre + 's', 0, 60)
+            core.CTX.assume(sec < 60)
+            return ga.DMSAngle(d, m, sec, positive=True)
+        m = fresh_real(pre + 'mm', 0, 60)
+        core.CTX.assume(m < 60)
+        return ga.DDMAngle(d, m, positive=True)
+    for cls in classes:
+        for sub in subsets:
+            def run():
+                args = [fresh_real(sp[0], sp[1], sp[2]) for sp in specs]
+                for k in sub:
+                    args[k] = obj(cls, 'a%d_' % k, specs[k][1], specs[k][2])
+                decs = [a.dec() if hasattr(a, 'dec') else a for a in args]
+                return call(mod, args), call(mod, decs)
+            with patched_angles(ga), (around(mod) if around else contextlib.nullcontext()):
+                paths, st = explore(run, loop_bound=2, max_decisions=30, max_paths=12)
+            label = '%s with %s as %s' % (what, '/'.join(specs[k][0] for k in sub), cls)
+            mk = lambda env, cls=cls, sub=sub: {'what': what, 'cls': cls, 'positions': list(sub)}
+            nret = 0
+            for p in paths:
+                if p.kind == 'cut':
+                    continue
+                if p.kind == 'raise' and isinstance(p.value, tuple(domain_errors)):
+                    continue        # the (summarised) decimal value of the object lies outside the function's domain: the range check's business
+                if p.kind == 'raise':
+                    out.append(ob.decide_goal(ob_id, '%s: no exception (%s: %s)' % (label, type(p.value).__name__, p.value), ob.path_conds(p),
+                                              z3.BoolVal(False), pid=pid, oracle='oracles.seq:argforms', args_from_model=mk,
+                                              key='%s:argforms' % ob_id, timeout_s=timeout_s))
+                    continue
+                nret += 1
+                ra, rb = p.value
+                pairs = [(x, y) for x, y in zip(ra, rb) if isinstance(x, SymReal) or isinstance(y, SymReal)]
+                plain = all(x == y for x, y in zip(ra, rb) if not (isinstance(x, SymReal) or isinstance(y, SymReal)))
+                goal = z3.And(z3.BoolVal(bool(plain)), *[same(x, y) for x, y in pairs])
+                out.append(ob.decide_goal(ob_id, '%s = %s of the decimal-degree values' % (label, what), ob.path_conds(p), goal, pid=pid,
+                                          oracle='oracles.seq:argforms', args_from_model=mk, key='%s:argforms' % ob_id, timeout_s=timeout_s))
+            if nret == 0:
+                out.append(ob.res(ob_id, label, 'inconclusive', [], 'no returning path within the unrolling'))
+    return out
+
+
+def seq_group(pid, ob_id, what, call, point_specs, oracle, marker, tier, temporaries=False, mods=None, dom=None, ell_box=None, around=None,
+              loop_bound=None, timeout_s=None, extra_args=None, pre=None):
     """the same input solved on ellipsoid 1, then on ellipsoid 2, then on ellipsoid 1 again inside one symbolic run (module state carries over
     between the calls exactly as in one process): the second result must be the first result's term with (a, 1/f) replaced by (a2, 1/f2),
     the third must be the first one (decided as identities; compared only on paths where the calls took the same number of passes)"""
-    gc, gd, ga = _mods()
+    import contextlib
+    gc, gd = mods() if mods else _mods()[:2]
+    (alo, ahi), (flo, fhi) = ell_box or ((6300000, 6400000), (280, 320))
+    tmo = timeout_s or QT[tier]
 
     def run():
-        a = fresh_real('a', 6300000, 6400000)
-        invf = fresh_real('invf', 280, 320)
-        a2 = fresh_real('a2', 6300000, 6400000)
-        invf2 = fresh_real('invf2', 280, 320)
-        pts = [fresh_real(k, lo, hi) for k, lo, hi in point_specs]
+        a = fresh_real('a', alo, ahi)
+        invf = fresh_real('invf', flo, fhi)
+        a2 = fresh_real('a2', alo, ahi)
+        invf2 = fresh_real('invf2', flo, fhi)
+        pts = [fresh_real(sp[0], sp[1], sp[2], is_int=(len(sp) > 3 and sp[3])) for sp in point_specs]
         c = core.ctx()
+        if pre:
+            pre(pts)
+        mathx.ID_MODEL.update(on=bool(temporaries), prev=None)
         if temporaries:
             # short-lived ellipsoid objects, each dropped before the next one is built (as in `f(..., Ellipsoid(a, invf))`): the
             # interpreter is free to give the next object the identity (address) of the previous one
@@ -252,10 +322,15 @@ def seq_group(pid, ob_id, what, call, point_specs, oracle, marker, tier, tempora
             m2 = len(c.pc)
             o3 = call(gd, pts, ell)
         return (a, invf, a2, invf2), (m0, m1, m2, len(c.pc)), o1, o2, o3
-    paths, st = explore(run, loop_bound=(1 if tier == 'quick' else 2), max_decisions=40, max_paths=60)
+    try:
+        with (around(gd) if around else contextlib.nullcontext()):
+            paths, st = explore(run, loop_bound=loop_bound or (1 if tier == 'quick' else 2), max_decisions=40, max_paths=60)
+    finally:
+        mathx.ID_MODEL.update(on=False, prev=None)
     out = []
-    dom = dict(DOM, a2=DOM['a'], invf2=DOM['invf'])
-    mk = lambda env: {'env': env, 'temporaries': temporaries}
+    dom = dict(dom or DOM)
+    dom.update(a2=dom['a'], invf2=dom['invf'])
+    mk = lambda env: dict(extra_args or {}, env=env, temporaries=temporaries)
     n = 0
     for p in paths:
         if p.kind != 'return':
@@ -271,23 +346,35 @@ def seq_group(pid, ob_id, what, call, point_specs, oracle, marker, tier, tempora
         d1 = [c_ for c_ in p.pc[m0:m1] if names(c_) & {'a', 'invf'}]
         d2 = list(p.pc[m1:m2])
         same_branches = len(d1) == len(d2) and all(z3.is_not(x) == z3.is_not(y) for x, y in zip(d1, d2))
-        if not all(isinstance(v, SymReal) for v in tuple(o1) + tuple(o2)):
+        if d1 and not d2:
+            # the second call decided nothing new although the first call's branches depended on its ellipsoid: its conditions were the
+            # very terms of the first call (already decided on this path), so it followed the same branches - compare the results
+            same_branches, d1 = True, []
+        idx = [i for i in range(len(o1)) if isinstance(o1[i], SymReal) and isinstance(o2[i], SymReal)]
+        if not idx:
             continue
         n += 1
-        for i in range(len(o1)):
+        for i in idx:
             out.append(ob.decide_close(ob_id, '%s: third call (first ellipsoid again) repeats the first result (output %d)' % (what, i), p, o3[i], o1[i],
-                                       0, pid=pid, key='%s:sequence' % ob_id, oracle=oracle, domain=dom, make_args=mk, timeout_s=QT[tier]))
-            if not same_branches:
+                                       0, pid=pid, key='%s:sequence' % ob_id, oracle=oracle, domain=dom, make_args=mk, timeout_s=tmo))
+            if not same_branches and len(d1) != len(d2):
                 continue
             exp = SymReal(sub(toz(o1[i])))
-            if i == 0:
+            if not same_branches:
+                # same number of ellipsoid-dependent decisions but other outcomes: decided under the hypothesis that the second ellipsoid
+                # satisfies the first call's branch conditions (contradictory, hence vacuous, when the calls really took other branches)
+                out.append(ob.decide_goal(ob_id, '%s: second call on another ellipsoid = the first result with (a, 1/f) replaced, if it meets the first '
+                                          'call\'s branch conditions (output %d)' % (what, i), ob.path_conds(p) + [sub(x) for x in d1],
+                                          toz(o2[i]) == toz(exp), pid=pid, oracle=oracle, args_from_model=mk, key='%s:sequence' % ob_id, timeout_s=tmo))
+                continue
+            if i == idx[0]:
                 for x, y in zip(d1, d2):
                     out.append(ob.decide_goal(ob_id, '%s: second call on another ellipsoid takes its branches on the first call\'s conditions with (a, 1/f) '
                                               'replaced' % what, ob.path_conds(p), sub(x) == y, pid=pid, oracle=oracle, args_from_model=mk,
-                                              key='%s:sequence' % ob_id, timeout_s=QT[tier]))
+                                              key='%s:sequence' % ob_id, timeout_s=tmo))
             out.append(ob.decide_close(ob_id, '%s: second call on another ellipsoid = the first result with (a, 1/f) replaced (output %d, %d passes)'
                                        % (what, i, k1), p, o2[i], exp, 0, pid=pid, key='%s:sequence' % ob_id, oracle=oracle, domain=dom,
-                                       make_args=mk, timeout_s=QT[tier]))
+                                       make_args=mk, timeout_s=tmo))
     if n == 0:
         out.append(ob.res(ob_id, '%s: two-ellipsoid call sequence' % what, 'inconclusive', [], 'no returning path with symbolic results'))
     return out
